@@ -45,4 +45,34 @@ theorem witness_wrong_twice :
     ∃ m', X86.exec (Gen.Amd64.jmpToOriginFunctionValue from_ to) m0 = some m' ∧ m'.rip ≠ to ∧ m'.rdx ≠ m0.rdx :=
   ⟨_, witness_lands_through_code, by decide, by decide⟩
 
+/-! ## The drafted repair (fixes/F27-c15-abs-jump-back.diff)
+
+`JMP qword ptr [RIP+0] ; .quad to` — 14 bytes, no register, no stack, no memory write.  Transcribed by hand here
+(the translator only sees the source as it is); once the fix is applied `Gen.Amd64.jmpToOriginFunctionValue` *is* this
+function, `C15.ReturnExact` becomes a theorem (`fixes/F27-c15-abs-jump-back.verif.patch` makes that switch) and this
+file goes away. -/
+
+def repairedAbs (to : BitVec 64) : List (BitVec 8) :=
+  [0xFF#8, 0x25#8, 0x00#8, 0x00#8, 0x00#8, 0x00#8,
+   BitVec.setWidth 8 to, BitVec.setWidth 8 (to >>> 8), BitVec.setWidth 8 (to >>> 16), BitVec.setWidth 8 (to >>> 24),
+   BitVec.setWidth 8 (to >>> 32), BitVec.setWidth 8 (to >>> 40), BitVec.setWidth 8 (to >>> 48), BitVec.setWidth 8 (to >>> 56)]
+
+def repaired (from_ to : BitVec 64) : List (BitVec 8) :=
+  if Gen.Amd64.relative from_ to then Gen.Amd64.jmpToOriginFunctionValue from_ to else repairedAbs to
+
+theorem repairedAbs_exact (to : BitVec 64) (m : X86.Mach) :
+    X86.exec (repairedAbs to) m = some { m with rip := to } := by
+  simp [repairedAbs, X86.exec, C15L.bytes64]
+
+/-- with the repair the clause holds at full strength: every 64-bit `from_`/`to`, every machine state -/
+theorem repaired_returnExact (from_ to : BitVec 64) (m : X86.Mach) :
+    X86.exec (repaired from_ to) { m with rip := from_ } = some { m with rip := to } := by
+  unfold repaired
+  split
+  · exact C15.amd64_origin_rel from_ to m (by assumption)
+  · exact repairedAbs_exact to _
+
+/-- and at the witness above it lands where the present code does not -/
+example : X86.exec (repaired from_ to) m0 = some { m0 with rip := to } := repaired_returnExact from_ to m0
+
 end C15F5
